@@ -125,6 +125,12 @@ class _CGMYLevyMeasure(LevyMeasure):
         return 0
 
     def integrate(self, a: float, b: float) -> float:
+        if a < 0 < b and (a == -np.inf or b == np.inf):
+            # a half-line (or the whole line) containing the origin: infinite unless the activity is finite
+            if self.parameters.y >= 0:
+                return np.inf
+            return self.integrate(a, 0.0) + self.integrate(0.0, b)
+
         if b == np.inf:
             if a == np.inf:
                 return 0.0
@@ -214,6 +220,9 @@ class _CGMYLevyMeasure(LevyMeasure):
 
     def __integrate_h_to_inf(self, alpha, h, u):
         """integral(exp(-ux)/pow(x, 1+alpha), x=h...inf)"""
+        if h == 0 and alpha < 0:
+            # finite activity: the whole half-line, Gamma(-alpha) / u**(-alpha)
+            return scipy.special.gamma(-alpha) * u**alpha
         uh = u * h
         if alpha == 0:
             return scipy.special.exp1(uh)
